@@ -44,17 +44,18 @@ type Server struct {
 	kvIndex     uint64
 
 	// bookkeeping for quiescence detection
-	healthParkedAt uint64 // index a health/state query is currently blocked on (0 = none)
-	kvParkedAt     map[string]uint64
-	healthServed   uint64 // number of health/state responses sent
-	kvServed       uint64
-	CatalogErr     map[string]bool // service names whose catalog lookup fails (fault injection)
-	healthWake     uint64          // bumped by WakeHealth: parked health queries return with the unchanged index
-	healthSeenAt   uint64          // index of the last health response sent
-	kvSeenAt       map[string]uint64
-	kvFail         bool            // every KV request fails with 500 (fault injection)
-	agentRefuses   bool            // service registrations are refused with 403 (ACL)
-	kvWake         uint64
+	healthParkedAt    uint64 // index a health/state query is currently blocked on (0 = none)
+	kvParkedAt        map[string]uint64
+	healthServed      uint64 // number of health/state responses sent
+	kvServed          uint64
+	CatalogErr        map[string]bool // service names whose catalog lookup fails (fault injection)
+	healthWake        uint64          // bumped by WakeHealth: parked health queries return with the unchanged index
+	healthSeenAt      uint64          // index of the last health response sent
+	kvSeenAt          map[string]uint64
+	kvFail            bool // every KV request fails with 500 (fault injection)
+	agentRefusesDereg bool
+	agentRefuses      bool // service registrations are refused with 403 (ACL)
+	kvWake            uint64
 }
 
 func New() *Server {
@@ -137,6 +138,14 @@ func (s *Server) Rewind() {
 func (s *Server) SetAgentRefuses(v bool) {
 	s.mu.Lock()
 	s.agentRefuses = v
+	s.mu.Unlock()
+}
+
+// SetAgentRefusesDeregister makes the agent answer deregistrations with an error (it is going
+// down together with fabio, or has lost its leader).
+func (s *Server) SetAgentRefusesDeregister(v bool) {
+	s.mu.Lock()
+	s.agentRefusesDereg = v
 	s.mu.Unlock()
 }
 
@@ -225,6 +234,15 @@ func (s *Server) handle(w http.ResponseWriter, r *http.Request) {
 		s.mu.Unlock()
 		if refuse {
 			http.Error(w, "Permission denied", 403)
+			return
+		}
+		w.WriteHeader(200)
+	case strings.HasPrefix(p, "/v1/agent/service/deregister"):
+		s.mu.Lock()
+		refuse := s.agentRefusesDereg
+		s.mu.Unlock()
+		if refuse {
+			http.Error(w, "rpc error: No cluster leader", 500)
 			return
 		}
 		w.WriteHeader(200)
